@@ -23,6 +23,7 @@ func init() {
 			"(R20.2) the Go-side brackets are ordered Before ≺ call ≺ After and unconditional in the four host-call arms and two trampoline arms of the compiler and in the interpreter's wrappers, and the interpreter body runner is only entered through the dispatcher that consults the listener; " +
 			"(R20.3) both recover paths notify Abort for every collected frame after the error is built, and the frame walks that feed Abort and the stack iterator are not cut at a constant number of frames (a genuine defect of this kind was found and fixed); " +
 			"(R20.4) listener tables are never written on a path reachable from a Close/Delete entry point; (R20.5) the compiler's stack iterator re-walks the native stack on every reset (no path skips the unwinder). " +
+			"(R20.6) what a cached compiled module captures of the listeners must be covered by the module identity – on this tree the engines store the listener objects while the identity hashes only their nil-ness: a second CompileModule of the same binary under another listener factory silently uses the first factory's listeners (demonstrated on both engines, recorded as two known findings). " +
 			"NOT decided: the native return-address walk itself, nesting under unwinding, equality of event streams between engines, parameter/result values.",
 		Rules: []core.Rule{
 			{ID: "R20.1", Template: "T-MUSTPASS", Text: "before at entry; label-derived jump targets are return-block-checked with an after call; emitted returns are covered", Min: 6},
@@ -30,6 +31,7 @@ func init() {
 			{ID: "R20.3", Template: "T-SIBLING", Text: "Abort for every collected frame after the error is built; frame walks are not capped by a constant", Min: 5},
 			{ID: "R20.4", Template: "T-WHOWRITES", Text: "listener tables are not written on close paths", Min: 4},
 			{ID: "R20.5", Template: "T-MUSTPASS", Text: "stack iterator reset always re-walks the stack", Min: 1},
+			{ID: "R20.6", Template: "T-SIBLING", Text: "listener objects captured by a cached compiled module are covered by the module identity (known finding: only nil-ness is hashed)", Min: 2},
 		},
 		Run: runC20,
 		Controls: []core.Control{
@@ -54,6 +56,7 @@ func runC20(c *core.Ctx) {
 	checkAbortCoverage(c)
 	checkListenerTables(c)
 	checkIteratorReset(c)
+	checkListenerIdentity(c)
 }
 
 // ---------------------------------------------------------------------------------------------------------
@@ -826,3 +829,138 @@ func checkIteratorReset(c *core.Ctx) {
 }
 
 func sortStrings(s []string) { sort.Strings(s) }
+
+// ---------------------------------------------------------------------------------------------------------
+// R20.6: listener objects captured by a cached compiled module must be covered by the module identity.
+
+func checkListenerIdentity(c *core.Ctx) {
+	wp := c.Pkg("internal/wasm")
+	if wp == nil {
+		return
+	}
+	// (a) what the identity hash takes from the listeners argument
+	var assign *ast.FuncDecl
+	core.AllFuncDecls(wp, func(fd *ast.FuncDecl) {
+		if fd.Name.Name == "AssignModuleID" {
+			assign = fd
+		}
+	})
+	if assign == nil {
+		c.Undecided("R20.6", "module identity", 0, "AssignModuleID not found")
+		return
+	}
+	info := wp.TypesInfo
+	var lsnParam types.Object
+	for _, f := range assign.Type.Params.List {
+		for _, n := range f.Names {
+			if o := info.Defs[n]; o != nil && strings.Contains(o.Type().String(), "FunctionListener") {
+				lsnParam = o
+			}
+		}
+	}
+	if lsnParam == nil {
+		c.Undecided("R20.6", "module identity", assign.Pos(), "no listeners parameter")
+		return
+	}
+	// element variables of `range listeners`
+	elems := map[types.Object]bool{}
+	ast.Inspect(assign.Body, func(x ast.Node) bool {
+		if rs, ok := x.(*ast.RangeStmt); ok {
+			if id, ok := ast.Unparen(rs.X).(*ast.Ident); ok && info.Uses[id] == lsnParam {
+				if v, ok := rs.Value.(*ast.Ident); ok {
+					if o := info.Defs[v]; o != nil {
+						elems[o] = true
+					}
+				}
+			}
+		}
+		return true
+	})
+	valueHashed := false // some use of an element other than a nil comparison
+	var stack []ast.Node
+	ast.Inspect(assign.Body, func(x ast.Node) bool {
+		if x == nil {
+			stack = stack[:len(stack)-1]
+			return true
+		}
+		stack = append(stack, x)
+		id, ok := x.(*ast.Ident)
+		if !ok || !elems[info.Uses[id]] {
+			return true
+		}
+		if len(stack) >= 2 {
+			if be, ok := stack[len(stack)-2].(*ast.BinaryExpr); ok && (be.Op == token.NEQ || be.Op == token.EQL) {
+				if other, ok := be.Y.(*ast.Ident); ok && other.Name == "nil" {
+					return true
+				}
+			}
+		}
+		valueHashed = true
+		return true
+	})
+	// (b) engines: do they store the listeners argument into the object they cache?
+	for _, e := range []struct{ name, rel string }{{"interpreter", "internal/engine/interpreter"}, {"compiler", wzv}} {
+		p := c.Pkg(e.rel)
+		if p == nil {
+			continue
+		}
+		pinfo := p.TypesInfo
+		var captures []string
+		core.AllFuncDecls(p, func(fd *ast.FuncDecl) {
+			if fd.Type.Params == nil {
+				return
+			}
+			var lp types.Object
+			for _, f := range fd.Type.Params.List {
+				for _, n := range f.Names {
+					if o := pinfo.Defs[n]; o != nil && strings.Contains(o.Type().String(), "[]") && strings.Contains(o.Type().String(), "FunctionListener") {
+						lp = o
+					}
+				}
+			}
+			if lp == nil {
+				return
+			}
+			derived := map[types.Object]bool{lp: true}
+			for i := 0; i < 2; i++ {
+				ast.Inspect(fd.Body, func(x ast.Node) bool {
+					if as, ok := x.(*ast.AssignStmt); ok && len(as.Lhs) == len(as.Rhs) {
+						for j, r := range as.Rhs {
+							uses := false
+							ast.Inspect(r, func(y ast.Node) bool {
+								if id, ok := y.(*ast.Ident); ok && derived[pinfo.Uses[id]] {
+									uses = true
+								}
+								return true
+							})
+							if !uses {
+								continue
+							}
+							if id, ok := as.Lhs[j].(*ast.Ident); ok {
+								if o := pinfo.Defs[id]; o != nil {
+									derived[o] = true
+								} else if o := pinfo.Uses[id]; o != nil {
+									derived[o] = true
+								}
+							} else if fld := core.FieldOf(pinfo, as.Lhs[j]); fld != nil && i == 1 {
+								// only value captures: `len(listeners) > 0` style uses do not reach a field
+								if tv := pinfo.Types[r]; tv.Type != nil && strings.Contains(tv.Type.String(), "FunctionListener") {
+									captures = append(captures, fmt.Sprintf("%s in %s at %s", fld.Name(), fd.Name.Name, c.Pos(as.Pos())))
+								}
+							}
+						}
+					}
+					return true
+				})
+			}
+		})
+		sort.Strings(captures)
+		if len(captures) == 0 {
+			c.Discharge("R20.6", e.name+" compiled modules do not capture listener objects", 0, "nothing to cover by the identity")
+			continue
+		}
+		c.Check(valueHashed, "R20.6", "listener objects captured by the "+e.name+"'s cached compiled module are covered by the module identity", assign.Pos(),
+			"the identity hash takes the listener values",
+			"the engine stores the listener objects in the compiled module it caches by module ID ("+strings.Join(captures, "; ")+") while AssignModuleID hashes only whether each listener is nil: a second CompileModule of the same binary with another listener factory hits the cache and its own listeners never receive an event (the first factory's listeners receive them instead)")
+	}
+}
